@@ -131,6 +131,16 @@ LIN_HELPER_SHAPES = {
 # build_model of the linear mapper with the reading-direction statement replaced by <DIR>
 _DIR_INVERSE = "subs = _map_substrates_to_labelmap(subs, label_map)"
 _DIR_DOCUMENTED = "subs = [subs[i] for i in label_map]"
+# build_model of the isotopomer mapper with the two statements that name the initially labelled variable
+# replaced by <INIT>
+_INIT_RAW = (
+    "            suffix = '__' + ''.join(('1' if idx in label_pos else '0' for idx in range(self.label_variables[k])))\n"
+    "            variables[f'{k}{suffix}'] = v"
+)
+_INIT_ISONAME = (
+    "            suffix = ''.join(('1' if idx in label_pos else '0' for idx in range(self.label_variables[k])))\n"
+    "            variables[f'{k}__{suffix}' if suffix else k] = v"
+)
 _HELPER_INVERSE = (
     "res = ['EXT'] * len(substrates)\n"
     "for substrate, pos in zip(substrates, labelmap, strict=True):\n"
@@ -142,7 +152,9 @@ _HELPER_INVERSE = (
 def helper_hashes() -> dict[str, dict[str, str]]:
     iso = ast.parse((common.REPO / "src/mxlpy/label_map.py").read_text())
     lin = ast.parse((common.REPO / "src/mxlpy/linear_label_map.py").read_text())
-    out = {"iso": {k: _h(_body_src(_fn(iso, k))) for k in ISO_HELPER_SHAPES}, "lin": {k: _h(_body_src(_fn(lin, k))) for k in LIN_HELPER_SHAPES}}
+    out = {"iso": {k: _h(_body_src(_fn(iso, k))) for k in ISO_HELPER_SHAPES if k != "build_model"}, "lin": {k: _h(_body_src(_fn(lin, k))) for k in LIN_HELPER_SHAPES}}
+    ibm = _body_src(_fn(iso, "build_model"))
+    out["iso"]["build_model<INIT>"] = _h(ibm.replace(_INIT_RAW, "<INIT>").replace(_INIT_ISONAME, "<INIT>"))
     cre = _body_src(_fn(iso, "_create_isotopomer_reactions"))
     out["iso"]["_create_isotopomer_reactions"] = _h(cre)
     bm = _body_src(_fn(lin, "build_model"))
@@ -160,7 +172,7 @@ PINNED = {
         "_assign_compound_labels": "9a22779e13145c3f",
         "_total_concentration": "5f12d60713e71e1a",
         "get_isotopomers": "35a1af943c3606b5",
-        "build_model": "b73d9eceb485b337",
+        "build_model<INIT>": "b1bb8b8cce8ac281",
         "_create_isotopomer_reactions": "2a9f89a608a29c3b",
     },
     "lin": {
@@ -185,6 +197,7 @@ def extract_facts() -> dict[str, str]:
         "iso_helpers": "false",
         "lin_dir": "DirUnknown",
         "lin_helpers": "false",
+        "init_name": "InitUnknown",
     }
     try:
         iso = ast.parse((common.REPO / "src/mxlpy/label_map.py").read_text())
@@ -222,6 +235,12 @@ def extract_facts() -> dict[str, str]:
         facts["iso_helpers"] = "true"
     if hs["lin"] == PINNED["lin"]:
         facts["lin_helpers"] = "true"
+    # name of the variable that receives the amount of an initially labelled compound
+    ibm = _body_src(_fn(iso, "build_model"))
+    if ibm.count(_INIT_RAW) == 1 and _INIT_ISONAME not in ibm:
+        facts["init_name"] = "InitRawSuffix"
+    elif ibm.count(_INIT_ISONAME) == 1 and _INIT_RAW not in ibm:
+        facts["init_name"] = "InitIsoName"
     # reading direction of the linear mapper: the statement in build_model AND (if used) the helper
     bm = _body_src(_fn(lin, "build_model"))
     helper = _body_src(_fn(lin, "_map_substrates_to_labelmap"))
@@ -239,7 +258,7 @@ def gen() -> dict[str, str]:
         "   do not edit.  An unrecognised shape yields an *Unknown constructor / None / false, which breaks\n"
         "   C05_facts_pinned or C16_facts_pinned. *)\n"
         "From Label Require Import LModel Iso Linear.\n"
-        f"Definition gen_label_facts : label_facts :=\n  mkLabelFacts {f['iso_dir']} {f['ext_bit']} {f['short']} {f['repl']} {f['iso_helpers']} {f['lin_dir']} {f['lin_helpers']}.\n"
+        f"Definition gen_label_facts : label_facts :=\n  mkLabelFacts {f['iso_dir']} {f['ext_bit']} {f['short']} {f['repl']} {f['iso_helpers']} {f['lin_dir']} {f['lin_helpers']} {f['init_name']}.\n"
     )
     common.write_if_changed(common.area_dir(AREA) / "GenLabelFacts.v", text)
     return f
